@@ -33,10 +33,10 @@ MANIFEST = dict(
           "preserves `Consistent` (index = scan of the tree), lifted by induction to every finite history; with globally "
           "unique ids a lookup returns exactly the element carrying the id and fails for absent ones. The model is tied to "
           "/repo by comparing, after every step of seeded API edit histories on the corpus models, the implementation's "
-          "private indexes with the model's, and an independent raw-scan monitor checks by_uuid/search directly."),
+          "private indexes with the model's, and an independent raw-scan monitor checks by_uuid/search directly."
+          ' The object layer above the index is modelled too (Model/Accessor.lean: every mutation method of the accessors over a real tree state, parameterised by the generated accessor-parameter table); every API call and every finite session of calls is proved to keep the invariant, and an interactive correspondence stream predicts error class, touched tree, instruction list and fresh view of every API step.'),
     design_ref="§6 C03",
-    note=("Trusted: Lean kernel; the diff-to-protocol translation in harness/objsession.py; lxml iteration order. The object "
-          "layer above the index (which accessor issues which instruction) is validated by correspondence, not proved."),
+    note=("Trusted: Lean kernel; the diff-to-protocol translation in harness/objsession.py; the API-call translation in harness/accsession.py; lxml iteration order. That the accessor model's instruction guard never fires on reachable states is validated by correspondence, not proved."),
     technique="Lean 4 proof (inductive invariant over an index-protocol state machine) + per-step differential correspondence on API histories",
 )
 
